@@ -556,6 +556,8 @@ class NatVC:
         if hi_ < lo_:
             raise SkipCase()
         v = int(self._take(name, (lambda: sample(self.rng)) if sample else (lambda: self.rng.randint(lo_, hi_))))
+        if self.replay_inputs is not None and v > max(4 * hi_, 4096):
+            raise SkipCase()          # a counter-model with an astronomically large size is not replayed natively
         if lo is not None and v < lo:
             raise SkipCase()
         if hard_hi and hi is not None and v > hi:
